@@ -298,3 +298,27 @@ Theorem roundtrip_real_text real uhdr head dt rows : hpf_check real uhdr head dt
 Proof.
   intros C U NE F R. apply roundtrip; auto. apply (hpf_check_sound real uhdr head dt C). reflexivity.
 Qed.
+
+(* ------------------------------------------------------------------ ... and for EVERY user header *)
+(* additionally: in the dict the verified parser reads from the real text, the first key that
+   lower-cases to _dtype is _DTYPE itself (pformat sorts the keys) *)
+Definition dtype_first (real : list byte) : bool :=
+  match py_eval (join [sp] (split_nl real)) with
+  | Some h => match first_key pv h (B "_dtype") with Some k => bytes_eqb k (B "_DTYPE") | None => false end
+  | None => false
+  end.
+Definition hpf_check_all (real : list byte) (uhdr head : hdict pv) (dt : dtype) : bool :=
+  hpf_check real uhdr head dt && dtype_first real.
+
+Theorem roundtrip_real_text_all real uhdr head dt rows : hpf_check_all real uhdr head dt = true ->
+  rows <> [] -> rows_fit dt rows -> 0 < rowsize dt ->
+  exists out, sfile_read pv py_vstr py_vint py_np_dtype py_eval
+                (sfile_write pv py_vstr py_vdescr (fun _ => real) uhdr dt rows) = Ok out
+              /\ roundtrip_ok pv eq py_vint py_np_dtype uhdr dt rows out.
+Proof.
+  intros C NE F R. unfold hpf_check_all in C. apply andb_true_iff in C as [C D].
+  destruct (hpf_check_sound real uhdr head dt C (fun _ => real) eq_refl) as [T [h' [Ev [Q Dt]]]].
+  unfold dtype_first in D. rewrite Ev in D.
+  destruct (first_key pv h' (B "_dtype")) as [k|] eqn:FK; [|discriminate]. apply bytes_eqb_eq in D. subst k.
+  apply (roundtrip_ordered pv eq py_vstr py_vint py_vdescr py_np_dtype (fun _ => real) py_eval uhdr dt rows h'); auto.
+Qed.
